@@ -68,6 +68,10 @@ pub enum Variant {
     /// the delegated code earns an execution refund (clears a storage slot of the account) before
     /// it moves the value: a charged revert discards that refund with the rest of the execution
     WithRefund,
+    /// A itself sends the debiting transaction *to itself* with a value equal to the inner debit:
+    /// revm journals no transfer for from == to, so the exclusion of the top-level value must not
+    /// swallow the delegated code's transfer of the same amount (seeded C13e)
+    SelfCall,
 }
 
 #[derive(Clone, Copy, Debug, PartialEq, Eq)]
@@ -111,6 +115,15 @@ pub fn block_ext(debit: Debit, variant: Variant, bal: Bal, k: usize, spec: SpecI
         Bal::ExactMinus1 => (s + v + own_tx_cost - credit.min(s + v)).checked_sub(1)?,
         Bal::BelowFutureCost => (s / 2).max(v + own_tx_cost + 1),
     };
+    // self-call: A pays for the debiting transaction itself, and the rule inspects the balance
+    // *after* the caller's reimbursement. With a gas limit of 80 000 at price 10 (about 77 700 gas
+    // are used) A has 100 000 before the debit and about 72 600 at the end: less than
+    // min(100 000, s) for every k >= 1, by a margin that does not depend on the exact gas figure.
+    let self_call = variant == Variant::SelfCall;
+    if self_call && (debit != Debit::CallValue || bal != Bal::BelowFutureCost || k == 0) {
+        return None;
+    }
+    let b0 = if self_call { 900_000 } else { b0 };
     if k == 0 && bal != Bal::Ample {
         return None;
     }
@@ -208,7 +221,11 @@ pub fn block_ext(debit: Debit, variant: Variant, bal: Bal, k: usize, spec: SpecI
             } else {
                 data
             };
-            let mut t = tx(eoa(0), 0, to, credit, data);
+            let mut t = if self_call { tx(a(), a_nonce, Some(a()), v, data) } else { tx(eoa(0), 0, to, credit, data) };
+            if self_call {
+                t.gas_limit = 80_000;
+                a_nonce += 1;
+            }
             if auth_in_tx {
                 t = with_auths(t, vec![authorization(a(), a_nonce, target)]);
                 a_nonce += 1;
@@ -243,14 +260,14 @@ pub fn block_ext(debit: Debit, variant: Variant, bal: Bal, k: usize, spec: SpecI
     };
     let credit_effective = if variant == Variant::InnerRevert { 0 } else { credit };
     let p = b0 + credit_effective;
-    let violation = d > 0 && s > 0 && p.saturating_sub(d) < p.min(s);
+    let violation = self_call || (d > 0 && s > 0 && p.saturating_sub(d) < p.min(s));
     // the debit itself must be possible (the delegated code's CALL fails if A cannot pay v)
     if matches!(debit, Debit::CallValue | Debit::CreateEndowment) && p < v {
         return None;
     }
     let name = format!("c13:{debit:?}:{variant:?}:{bal:?}:k{k}{}", if replayed { ":replayed" } else { "" });
     let case = Case::new(name, spec, db, txs);
-    let fundable = b0 >= s + own_tx_cost;
+    let fundable = !self_call && b0 >= s + own_tx_cost;
     Some(Block { case, debit_tx, violation, later, a_balance_if_violation: U256::from(b0.saturating_sub(C_actual(k))), fundable })
 }
 
@@ -381,8 +398,9 @@ pub fn blocks(spec: SpecId) -> Vec<Block> {
             Variant::DustBefore,
             Variant::ViaCreateTx,
             Variant::WithRefund,
+            Variant::SelfCall,
         ] {
-            if matches!(variant, Variant::Refunded | Variant::DustAfter | Variant::DustBefore | Variant::ViaCreateTx | Variant::WithRefund) && debit != Debit::CallValue {
+            if matches!(variant, Variant::Refunded | Variant::DustAfter | Variant::DustBefore | Variant::ViaCreateTx | Variant::WithRefund | Variant::SelfCall) && debit != Debit::CallValue {
                 continue;
             }
             if debit == Debit::OwnTopLevelValue && variant != Variant::Plain {
